@@ -285,6 +285,25 @@ class Source:
             raise AnchorError('fn %s: /%s/ matched %d times, expected %s' % (fnpath, regex, len(res), count))
         return res
 
+    def call_args(self, open_paren):
+        """[(start, end)] of the top-level arguments of the call whose '(' is at open_paren"""
+        d, k, res, a = 0, open_paren, [], open_paren + 1
+        while k < len(self.m):
+            ch = self.m[k]
+            if ch in '([{':
+                d += 1
+            elif ch in ')]}':
+                d -= 1
+                if d == 0:
+                    if self.text[a:k].strip():
+                        res.append((a, k))
+                    return res
+            elif ch == ',' and d == 1:
+                res.append((a, k))
+                a = k + 1
+            k += 1
+        raise AnchorError('unbalanced call')
+
     def stmt_end(self, pos):
         """end (exclusive, after the newline) of the statement containing pos: the first ';' at
         relative nesting depth 0, or the closing brace of a block-statement, whichever first."""
